@@ -57,4 +57,18 @@ func checkC05(c *Ctx) {
 		Ops: []string{"Add", "Add", "AddWithCount", "AddWithCount", "AddBin", "AddRepeat", "Merge", "Merge", "CopyTo", "Clear", "Reweight", "EncDec", "Proto", "Read"}}, "collapsing stores")
 	c.runStoreTraces(c.pick(12, 100), traceGenOpts{Layout: true, MaxWidth: 60, Events: c.pick(300, 1500), Kinds: []string{"low", "high", "low", "high", "dense", "paged"},
 		Limits: []int{1, 2, 3, 8, 32, 128}, Ops: []string{"Add", "AddWithCount", "AddRepeat", "Merge", "Merge", "CopyTo", "Clear", "Reweight", "EncDec", "Read"}}, "collapsing stores, array layout")
+	// sketch level (last clause of C05): sketches built on collapsing stores hold the folded content and answer every
+	// quantile with a value of a bin the specification allows at that rank on the folded content (retained bins keep
+	// the accuracy guarantee; answers in the edge bin are that bin), min/max are the clamped extremes
+	mxs := &SketchMatrix{Mappings: mappingMatrix([]float64{0.01, 0.1}, nil), Reals: exactRealKinds,
+		Aspects: map[string]bool{"bins": true, "quantile": true, "minmax": true, "coherence": true}}
+	for _, ks := range [][]SketchInit{
+		sketches("plain", mk("low", 2), mk("low", 3), mk("high", 2), mk("high", 1)),
+		sketches("plain", mk("high", 3), mk("low", 2), ex0, ex0)} {
+		simc := &SketchGen{Init: ks, Tokens: append(append([]int{}, tokBins3...), 0, 2, 16, 17, -16, -17), Weights: []int{1, 2, 4, 8},
+			Ops: []string{"Add", "AddW", "Merge", "Copy", "Clear", "EncDec", "DecodeNew"}, Q: 4, QDen: 8, Depth: c.pick(12, 20), Simulate: true, Num: c.pick(600, 15000)}
+		c.runSketchGen(simc, mxs, c.pick(6, 12), "sketches on collapsing stores")
+	}
+	treeS := &SketchGen{Init: sketches("plain", mk("high", 2), mk("low", 2)), Tokens: []int{10, 12, 14, 16, -10, -12, -14}, Ops: []string{"Add"}, Q: 4, QDen: 8, Depth: c.pick(4, 5)}
+	c.runSketchGen(treeS, mxs, c.pick(6, 12), "exhaustive tree of adds into a sketch on collapsing stores")
 }
